@@ -289,6 +289,8 @@ pub enum SettleErr {
 }
 
 pub struct Sim {
+    /// ids of actors whose future is still alive (kept small: finished/cancelled ones leave)
+    live: Vec<ActorId>,
     actors: Vec<Actor>,
     socks: Vec<SockSlot>,
     pub pipes: Vec<Pipe>,
@@ -305,6 +307,7 @@ impl Default for Sim {
 impl Sim {
     pub fn new() -> Sim {
         Sim {
+            live: vec![],
             actors: vec![],
             socks: vec![],
             pipes: vec![],
@@ -346,6 +349,7 @@ impl Sim {
             polls: 0,
             cancelled: false,
         });
+        self.live.push(self.actors.len() - 1);
         self.actors.len() - 1
     }
 
@@ -457,6 +461,7 @@ impl Sim {
             Poll::Ready(out) => {
                 act.out = Some(out);
                 act.fut = None;
+                self.live.retain(|x| *x != a);
                 true
             }
             Poll::Pending => false,
@@ -468,6 +473,7 @@ impl Sim {
         let act = &mut self.actors[a];
         if act.fut.take().is_some() {
             act.cancelled = true;
+            self.live.retain(|x| *x != a);
         }
     }
 
@@ -490,10 +496,10 @@ impl Sim {
         self.actors[a].out.take()
     }
     pub fn runnable(&self) -> Vec<ActorId> {
-        (0..self.actors.len()).filter(|a| self.woken(*a)).collect()
+        self.live.iter().copied().filter(|a| self.woken(*a)).collect()
     }
     pub fn live_actors(&self) -> Vec<ActorId> {
-        (0..self.actors.len()).filter(|a| !self.done(*a)).collect()
+        self.live.clone()
     }
 
     /// Let tokio run the tasks the library spawned (PUB reader tasks).
@@ -512,7 +518,7 @@ impl Sim {
             }
             let a0 = activity();
             let mut polled = false;
-            for a in 0..self.actors.len() {
+            for a in self.live.clone() {
                 if self.woken(a) {
                     self.poll(a);
                     polled = true;
@@ -524,7 +530,7 @@ impl Sim {
                 // one more yield to be sure no tokio task was left runnable
                 let a1 = activity();
                 tokio::task::yield_now().await;
-                if activity() == a1 && self.runnable().is_empty() {
+                if activity() == a1 && !self.live.iter().any(|a| self.woken(*a)) {
                     return Ok(());
                 }
                 continue;
